@@ -14,6 +14,8 @@
 //! Oracle: `git cat-file --batch-all-objects --batch` of the same repository (fetched once per world, each entry
 //! validated against the harness' SHA-1): every answer must have git's kind and bytes, headers git's kind and size,
 //! missing ids must be reported missing — for every configuration, order and repetition.
+//! A second sub-check (`cache-model`) drives every cache implementation alone with generated put/get sequences under
+//! the read path's invariant (a key always carries the same value): a cache may forget, it may never lie.
 use std::collections::BTreeMap;
 use std::path::{Path, PathBuf};
 
@@ -607,11 +609,11 @@ fn run_store_level(
 
 pub fn main() {
     let mut ck = Check::new("C08", "exploration");
-    ck.rule("world = generated history (1..3 segments of 2..14 commits; 14 paths incl. nested dirs, exec, symlink, a 15..45-file directory; file versions by overwrite/insert/delete/move/duplicate/append/empty/rotate edits; annotated tags) packed by git with depth in 0..50, window in 0..20, ofs- or ref-deltas, idx v1/v2, {single pack, pack per segment, last segment loose} x {extra overlapping pack} x {multi-pack-index}; request sequence of 40..400 (ids with repetition of the last 4, delta-base/child locality, uniform, missing ids; header-only requests; reused output buffer kept/cleared/replaced/garbage-filled/truncated) served under 16 pack-level delta-cache configurations and 6 store-level (pack cache x object cache) configurations. Non-trivial: some full request hits an object of delta depth >= 2 after another object of the same delta chain was requested (so the chain can be partially cached) — bounded caches are always among the configurations. Distinct by hash of history streams, pack options and requests.");
+    ck.rule("world = generated history (1..3 segments of 2..14 commits; 14 paths incl. nested dirs, exec, symlink, a 15..45-file directory; file versions by overwrite/insert/delete/move/duplicate/append/empty/rotate edits; annotated tags) packed by git with depth in 0..50, window in 0..20, ofs- or ref-deltas, idx v1/v2, {single pack, pack per segment, last segment loose} x {extra overlapping pack} x {multi-pack-index}; request sequence of 40..400 (ids with repetition of the last 4, delta-base/child locality, uniform, missing ids; header-only requests; reused output buffer kept/cleared/replaced/garbage-filled/truncated) served under 16 pack-level delta-cache configurations and 6 store-level (pack cache x object cache) configurations. Non-trivial: some full request hits an object of delta depth >= 2 after another object of the same delta chain was requested (so the chain can be partially cached) — bounded caches are always among the configurations. Distinct by hash of history streams, pack options and requests. cache-model: each of the 16 delta caches and 3 object caches alone under 1..120 put/get operations over a small key space ((pack id, offset) incl. offsets >= 2^32 and equal offsets in different packs; object ids) where a key always carries the same value (sizes 0..8, ~64, ~1000, ~10000); non-trivial: at least one cache hit.");
     ck.assume(&format!("oracle: {} (fast-import, repack, pack-objects, multi-pack-index, cat-file --batch-all-objects); every object git prints is re-hashed by the harness", Git::version()));
     ck.assume("at pack level every pack gets a distinct data::File::id, as the shared cache is keyed by (pack id, offset)");
 
-    ck.sub("cached-reads", SubCfg::new(96, 2_400).max_len(6000).max_shrink(40), |t, c| {
+    ck.sub("cached-reads", SubCfg::new(96, 2_400).max_len(6000).max_shrink(16), |t, c| {
         let mut rng = Rng(t.u64() | 1);
         // ---- pack options
         let depth = match t.weighted(&[1, 2, 4, 8]) {
@@ -646,8 +648,6 @@ pub fn main() {
         c.label_if(depth == 0 || window == 0, "no-deltas");
 
         // ---- build the world
-        let timing = std::env::var_os("VP_C08_TIMING").is_some();
-        let t0 = std::time::Instant::now();
         let world = infra!(c, World::new("c08", true), "world");
         let mut git = world
             .git
@@ -861,7 +861,6 @@ pub fn main() {
             )
         });
 
-        let t1 = std::time::Instant::now();
         // ---- pack level: every delta cache configuration, one cache shared by all packs
         for i in 0..N_PACK_CACHES {
             let mut cache = make_pack_cache(i);
@@ -870,7 +869,6 @@ pub fn main() {
                 return;
             }
         }
-        let t2 = std::time::Instant::now();
         // ---- store level: no caches, then 5 generated (pack cache, object cache) combinations
         let mut combos: Vec<(Option<usize>, usize)> = vec![(None, 0)];
         for _ in 0..5 {
@@ -889,9 +887,6 @@ pub fn main() {
                 );
                 return;
             }
-        }
-        if timing {
-            eprintln!("c08 timing: world {:?} pack-level {:?} store-level {:?} ({} objs, {} reqs)", t1 - t0, t2 - t1, t2.elapsed(), all_ids.len(), reqs.len());
         }
     });
 
